@@ -82,9 +82,10 @@ pub fn end_expression<Data: GarnishData>(this: &mut Data) -> Result<Option<Data:
             );
 
             // set value to ended expressions return value
-            match this.get_current_value_mut() {
+            // (a fresh entry replaces the old one, see update_value)
+            match this.pop_value_stack() {
                 None => state_error(format!("No inputs available to update during end expression operation."))?,
-                Some(v) => *v = r,
+                Some(_) => this.push_value_stack(r)?,
             }
 
             Ok(Some(this.get_instruction_len()))
